@@ -19,7 +19,7 @@ def sh(cmd, **kw):
 
 
 def main():
-    src, name = sys.argv[1], sys.argv[2]
+    src, name = os.path.abspath(sys.argv[1]), sys.argv[2]
     props = sys.argv[3:]
     meta = json.load(open(os.path.join(src, "meta.json")))
     if not props:
@@ -28,9 +28,10 @@ def main():
     sh("git -C /repo worktree remove --force %s" % WT)
     r = sh("git -C /repo worktree add -q --detach %s HEAD" % WT)
     try:
-        r = sh("git -C %s apply --3way %s" % (WT, os.path.join(src, "patch.diff")))
+        r = sh("git -C %s apply %s" % (WT, os.path.join(src, "patch.diff")))
         if r.returncode != 0:
-            r = sh("cd %s && patch -p1 < %s" % (WT, os.path.join(src, "patch.diff")))
+            sh("git -C %s checkout -- ." % WT)
+            r = sh("cd %s && patch -p1 --no-backup-if-mismatch < %s" % (WT, os.path.join(src, "patch.diff")))
         res["applies"] = r.returncode == 0
         if not res["applies"]:
             print("patch does not apply:\n" + r.stdout[-1500:])
@@ -67,10 +68,11 @@ def main():
         res["detected_by"] = sorted(p for p, d in det.items() if d["exit"] == 1)
         dst = os.path.join(VERIF, "seeded", name)
         if res["confirmed"]:
-            shutil.rmtree(dst, ignore_errors=True)
-            os.makedirs(dst)
-            shutil.copy(os.path.join(src, "patch.diff"), dst)
-            shutil.copytree(os.path.join(src, "demo"), os.path.join(dst, "demo"), ignore=shutil.ignore_patterns("*.o", "demo_bin", "a.out", "build*"))
+            if os.path.realpath(src) != os.path.realpath(dst):
+                shutil.rmtree(dst, ignore_errors=True)
+                os.makedirs(dst)
+                shutil.copy(os.path.join(src, "patch.diff"), dst)
+                shutil.copytree(os.path.join(src, "demo"), os.path.join(dst, "demo"), ignore=shutil.ignore_patterns("*.o", "demo_bin", "a.out", "build*"))
             meta["evaluation"] = res
             json.dump(meta, open(os.path.join(dst, "meta.json"), "w"), indent=1)
         print(json.dumps({k: res[k] for k in ("confirmed", "detected_by")}))
